@@ -67,6 +67,8 @@ def scenarios(tier):
     # different calls with byte-identical results / under one key override: afterwards a fresh backend serves them all
     out.append(("fs|cold|equal-results+readback", "fs", "cold", [[("same", 1)], [("same", 2)]]))
     out.append(("fs|cold|shared-override+readback", "fs", "cold", [[("ko", 1)], [("ko", 2)]]))
+    # two different partition results stored at the same time (index + value objects each)
+    out.append(("fs+cache-one|cold|two-partitions+readback", "fs+cache-one", "cold", [[("pa", 1)], [("pb", 1)]]))
     if tier == "thorough":
         out.append(("fs+cache-one|cold|crossing-trees", "fs+cache-one", "cold", [[("ping", 1)], [("pong", 1)]]))
         out.append(("fs+cache-one|cold|equal-results+readback", "fs+cache-one", "cold", [[("same", 1)], [("same", 2)]]))
